@@ -1,4 +1,5 @@
 from collections.abc import Callable
+import re
 
 from rogw.tranp.errors import Errors
 from rogw.tranp.syntax.ast.entry import Entry
@@ -7,6 +8,9 @@ from rogw.tranp.syntax.ast.path import EntryPath
 
 class ASTFinder:
 	"""AST探索インターフェイス"""
+
+	# XXX フルパスの表記は1通り。空要素・インデックスの別表記(符号/0埋め/空白)・余分な括弧は実在しないパス
+	_full_path_pattern = re.compile(r'[^.\[\]\s]+(\[(0|[1-9][0-9]*)\])?(\.[^.\[\]\s]+(\[(0|[1-9][0-9]*)\])?)*')
 
 	def exists(self, root: Entry, full_path: str) -> bool:
 		"""指定のパスに一致するエントリーが存在するか判定
@@ -36,6 +40,9 @@ class ASTFinder:
 		"""
 		if root.name == full_path:
 			return root
+
+		if not self._full_path_pattern.fullmatch(full_path):
+			raise Errors.NodeNotFound(root, full_path)
 
 		path = EntryPath(full_path)
 		if not path.valid or path.first != (root.name, -1):
